@@ -63,7 +63,7 @@ func Explore(opt Options, mk Harness) *Result {
 	runOnce := func(prefix []int, trace bool) (*vrt.Sched, string, string) {
 		body, check := mk()
 		s := vrt.Run(vrt.Config{Prefix: prefix, Horizon: opt.Horizon, MapBranch: opt.MapBranch,
-			TimerBudget: opt.TimerBudget, StartBranch: opt.StartBranch, Trace: trace, NoKeys: !opt.Cache}, body)
+			TimerBudget: opt.TimerBudget, StartBranch: opt.StartBranch, Trace: trace, NoKeys: !opt.Cache, KeyNoLast: opt.Bound < 0}, body)
 		v, o := "", ""
 		switch {
 		case s.Diverged != "":
